@@ -32,7 +32,7 @@ func run(c *hl.Ctx) error {
 	r := c.Rand()
 	n := c.Pick(2500, 50000)
 	for i := 0; i < n; i++ {
-		g := semlib.New(r, semlib.Opts{MaxDecls: 40, MaxDepth: 3, Underscore: true, QuotedKw: false, ErrSeeds: i%4 == 0, Nulls: true, EdgeHeavy: true})
+		g := semlib.New(r, semlib.Opts{MaxDecls: 40, MaxDepth: 3, Underscore: true, QuotedKw: false, ErrSeeds: i%4 == 0, Nulls: true, EdgeHeavy: true, SpecialNames: true})
 		src := g.Program()
 		cc, why := semlib.CoreCase(src)
 		if cc == nil {
